@@ -26,6 +26,7 @@ import (
 	"go.uber.org/zap"
 
 	"github.com/mimiro-io/datahub/internal/conf"
+	"github.com/mimiro-io/datahub/internal/verifhook"
 )
 
 const datasetCore = "core.Dataset"
@@ -134,11 +135,13 @@ func (dsm *DsManager) CreateDataset(name string, createDatasetConfig *CreateData
 		ds.VirtualDatasetConfig = createDatasetConfig.VirtualDatasetConfig
 	}
 
+	verifhook.Point("create.after-next-id")
 	jsonData, _ := json.Marshal(ds)
 	err = dsm.store.storeValue(ds.getStorageKey(), jsonData)
 	if err != nil {
 		return nil, err
 	}
+	verifhook.Point("create.after-record")
 
 	dsm.store.datasets.Store(name, ds)
 	dsm.store.datasetsByInternalID.Store(ds.InternalID, ds)
@@ -196,6 +199,7 @@ func (dsm *DsManager) UpdateDataset(name string, config *UpdateDatasetConfig) (*
 		if err != nil {
 			return nil, err
 		}
+		verifhook.Point("rename.after-record")
 
 		// update in local cache
 		dsm.store.datasets.Delete(name)
@@ -223,6 +227,7 @@ func (dsm *DsManager) UpdateDataset(name string, config *UpdateDatasetConfig) (*
 		if err != nil {
 			return nil, err
 		}
+		verifhook.Point("rename.after-old-meta")
 		entity.IsDeleted = false
 		entity.ID = dsInfo.DatasetPrefix + ":" + newName
 		entity.Properties[dsInfo.NameKey] = newName
@@ -260,6 +265,7 @@ func (dsm *DsManager) DeleteDataset(name string) error {
 	if err != nil {
 		return err
 	}
+	verifhook.Point("delete.after-record")
 
 	// record we deleted it.
 	// swap map out with new modified copy of map to avoid concurrent read/write issues which can occur if
@@ -274,6 +280,7 @@ func (dsm *DsManager) DeleteDataset(name string) error {
 	if err != nil {
 		return err
 	}
+	verifhook.Point("delete.after-deleted-set")
 
 	dsm.eb.UnregisterTopic(name) // unregister event-handler on this topic. Note that subscriptions are left.
 
